@@ -366,6 +366,36 @@ func (c *FnCtx) callByContract(frame *Frame, st *State, in ssa.Instruction, call
 	}
 	post.old = old
 	c.bindResults(post, callee, fc, res, rt)
+	// the callee returns holding these mutexes: the guarded state is whatever the lock
+	// invariant allows, and the caller now owns the lock
+	for _, acq := range fc.Acquires {
+		e, err := parseExpr(acq)
+		if err != nil || e.Op != "sel" {
+			c.errs = append(c.errs, "acquires: bad mutex expression "+acq)
+			continue
+		}
+		obj, err := c.eval(post, e.Args[0])
+		if err != nil {
+			c.errs = append(c.errs, "acquires: "+err.Error())
+			continue
+		}
+		owner, ok := fieldOwner(obj)
+		if !ok {
+			continue
+		}
+		li := c.findLockInv(typeName(owner), e.Name)
+		if li == nil {
+			c.note("acquires: mutex " + acq + " has no lockinv")
+			continue
+		}
+		c.havocGuarded(st, li, obj.S)
+		c.assumeLockInv(st, li, obj.S)
+		st.held[typeName(owner)+"."+e.Name+"@"+obj.S] = true
+		if !st.lockedOnce {
+			st.lockedOnce = true
+			st.oldHeap = copyHeap(st.heap)
+		}
+	}
 	for _, e := range fc.Ensures {
 		t, err := c.evalBool(post, e.Expr)
 		if err != nil {
